@@ -328,6 +328,8 @@ pub fn run_scenario(sc: &Value, ex: &mut Exec) -> usize {
     if let Some(x) = sc.get("grp") {
         begin["grp"] = x.clone();
     }
+    // is the scenario inside the domain of the conform-mode trace specification (TraceFlw.tla)?
+    begin["conf"] = json!(sc.get("conf").and_then(|v| v.as_bool()).unwrap_or(false));
     if !resume {
         emit(ex, begin);
     } else {
@@ -380,12 +382,10 @@ pub fn run_scenario(sc: &Value, ex: &mut Exec) -> usize {
                 let len = st["len"].as_u64().unwrap_or(10) as usize;
                 let le = cfg.le().len();
                 let anon = obs::is_anonymous(len, le);
-                let id = if anon {
-                    0
-                } else {
-                    next_id += 1;
-                    next_id
-                };
+                // the id of a record is its position among all Log steps of the scenario (anonymous records,
+                // which are too short to carry it, count as well) - the same numbering the specification uses
+                next_id += 1;
+                let id = if anon { 0 } else { next_id };
                 let msg = match st.get("msg").and_then(|v| v.as_str()) {
                     Some(m) => m.to_string(),
                     None => obs::message(id, len, le),
